@@ -117,6 +117,9 @@ structure Knapsack where
   weight : List Nat
   rubMode : Nat        -- 0 none, 1 sum of the remaining profits
   domMode : Nat        -- 0 none, 1 (capacity, value)
+  /-- depth-free variant with long arcs (token `L`): the state is the capacity alone, a variable whose item does not fit
+      does not impact the state (`is_impacted_by`), the rough bound and the dominance key do not use the depth -/
+  free : Bool := false
 
 namespace Knapsack
 variable (Kp : Knapsack)
@@ -128,11 +131,11 @@ def p (k : Nat) : Int := (Kp.profit[k]?).getD 0
 
 def problem : Problem Int :=
   { nbVars := Kp.n, init := code 0 Kp.cap, initVal := 0,
-    trans := fun s d => code (depthOf s + 1) (if d.val = 1 then capOf s - Kp.w d.var else capOf s),
+    trans := fun s d => code (if Kp.free then 0 else depthOf s + 1) (if d.val = 1 then capOf s - Kp.w d.var else capOf s),
     cost := fun _ _ d => Kp.p d.var * d.val,
     nextVar := fun depth _ => if depth < Kp.n then some depth else none,
     domain := fun k s => if capOf s ≥ Kp.w k then [1, 0] else [0],
-    impacted := fun _ _ => true }
+    impacted := fun k s => if Kp.free then decide (capOf s ≥ Kp.w k) else true }
 
 def relaxation : Relax Int :=
   { merge := fun states =>
@@ -141,13 +144,14 @@ def relaxation : Relax Int :=
       | s :: r => r.foldl (fun best c => if capOf c > capOf best then c else best) s,
     relax := fun _ _ _ _ c => c,
     rub := fun s => if Kp.rubMode = 0 then iMax else
+      if Kp.free then ((List.range Kp.n).filter (fun k => Kp.w k ≤ capOf s)).foldl (fun acc k => acc + max 0 (Kp.p k)) 0 else
       ((List.range Kp.n).filter (fun k => k ≥ depthOf s)).foldl (fun acc k => acc + max 0 (Kp.p k)) 0 }
 
 def ranking (_ : Knapsack) : Ranking Int := { cmp := fun a b => icmp (capOf a : Nat) (capOf b : Nat) }
 
 def domRule : Option (DomRule Int Int) :=
   if Kp.domMode = 0 then none
-  else some { key := fun s => some (depthOf s : Nat), dims := fun _ => 1, coord := fun s _ => (capOf s : Nat), useValue := true }
+  else some { key := fun s => some (if Kp.free then 0 else (depthOf s : Nat)), dims := fun _ => 1, coord := fun s _ => (capOf s : Nat), useValue := true }
 
 /-- exact value-to-go -/
 def hstar : Nat → Nat → Nat → Int
@@ -156,7 +160,7 @@ def hstar : Nat → Nat → Nat → Int
     if k ≥ Kp.n then 0 else
     let skip := hstar fuel (k + 1) c
     if c ≥ Kp.w k then max skip (Kp.p k + hstar fuel (k + 1) (c - Kp.w k)) else skip
-def hOf (code : Int) : EInt := some (Kp.hstar (Kp.n + 1) (depthOf code) (capOf code))
+def hOf (depth : Nat) (code : Int) : EInt := some (Kp.hstar (Kp.n + 1) (if Kp.free then depth else depthOf code) (capOf code))
 end Knapsack
 
 /-- a family instance -/
@@ -171,6 +175,6 @@ def Fam.domRule : Fam → Option (DomRule Int Int) | .table t => t.domRule | .kn
 /-- the potential `H depth state` used by the property predicates -/
 def Fam.H : Fam → Nat → Int → EInt
   | .table t => fun k s => t.hSet k s
-  | .knap k => fun _ s => k.hOf s
+  | .knap k => fun d s => k.hOf d s
 
 end Ddo
